@@ -1681,7 +1681,7 @@ def search(ctx, broken):
     _guard(errors, res, 'search-dispatch', lambda: part_dispatch(ctx, res, ctx.n(4000, 40000), use_driver=False))
     _guard(errors, res, 'search-second-database', lambda: part_second_database(ctx, res))
     _guard(errors, res, 'search-array-forms', lambda: part_array_forms(ctx, res))
-    if not res.violations:
+    if not _new_violations(res):
         _guard(errors, res, 'search-runs', lambda: part_runs(ctx, res))
     return res
 
